@@ -47,6 +47,16 @@ def crop1d {α} (zero : α) (x : List α) (n2 : Nat) : Except String (List α) :
     | some p => x.getD p.1 zero
     | none => zero)
 
+/-- `_fft_crop_fold` along one axis (real input, since fix of F16): the plain masked copy, and — when the axis is cropped to an even
+length (generated test `foldTest`) — the source coefficient at the generated index `foldIndex` (+Nyquist of the short axis) is added
+onto the same position of the cropped axis (its −Nyquist slot) -/
+def cropFold1d (x : List Int) (n2 : Nat) : Except String (List Int) := do
+  let c ← crop1d (0 : Int) x n2
+  if foldTest x.length n2 then
+    let k := (foldIndex n2).toNat
+    pure (c.set k (c.getD k 0 + x.getD k 0))
+  else pure c
+
 /-- crop along the two last axes of a row-major 2-D array (separable: columns within each row, then rows) -/
 def crop2d {α} (zero : α) (x : List (List α)) (m1 m2 : Nat) : Except String (List (List α)) := do
   let rows ← x.mapM (fun r => crop1d zero r m2)
